@@ -98,8 +98,15 @@ def _find(it, a, k, n):
 def _rfind(it, a, k, n):
     s = a[0]
     sub = _other(it, s, a[1], n)
+    if len(a) > 3:
+        raise Unsupported("rfind with end")
     if len(a) > 2:
-        raise Unsupported("rfind with start")
+        # s.rfind(sub, start): the last occurrence that begins at or after the (normalised, clamped) start
+        ln = z3.Length(s.z)
+        st = ops.norm_index(as_int(it.need(a[2])), ln)
+        st = z3.If(st > ln, ln, st)
+        r = z3.LastIndexOf(z3.SubString(s.z, st, ln - st), sub.z)
+        return VInt(z3.If(r < 0, z3.IntVal(-1), r + st))
     return VInt(z3.LastIndexOf(s.z, sub.z))
 
 
